@@ -35,9 +35,10 @@ func vRunCase(c vReplayCase) (out vReplayOut) {
 		out.Missing = true
 		return
 	}
+	var setupFailures []string
 	defer func() {
 		out.Obs = vx.Log
-		out.Failures = vx.Failures
+		out.Failures = append(setupFailures, vx.Failures...)
 		if p := recover(); p != nil {
 			if _, ok := p.(vx.AssumeFailed); ok {
 				out.Assume = true
@@ -49,6 +50,7 @@ func vRunCase(c vReplayCase) (out vReplayOut) {
 	if c.Setup != "" {
 		vx.Reset(nil, c.Params)
 		vx.Lookup(c.Setup)()
+		setupFailures = vx.Failures
 	}
 	vx.Reset(c.Replay, c.Params)
 	body()
